@@ -505,6 +505,8 @@ pub struct PartCrash {
     pub victims: u64,
     pub crash_points: u64,
     pub cases: u64,
+    #[serde(default)]
+    pub second_crash_points: u64,
     pub complete: bool,
     pub violation: Option<(String, Value)>,
     pub errors: Vec<String>,
@@ -513,7 +515,7 @@ pub struct PartCrash {
 impl DSys {
     /// Run `victim` with a crash in front of its persistent write number `i`; reopen; roll back to `r`;
     /// compare with the model truncated at `r`. Ok(false): the failpoint did not fire (i >= writes).
-    fn crash_case(&mut self, path: &[DOp], victim: &DOp, i: u64, r: u64) -> Result<bool, String> {
+    fn crash_case(&mut self, path: &[DOp], victim: &DOp, i: u64, r: u64, second: Option<u64>) -> Result<bool, String> {
         use brc20_prog::verif as v;
         self.wipe();
         for op in path {
@@ -535,6 +537,25 @@ impl DSys {
         let (c, b) = DSys::open(&self.dir);
         self.cdb = Some(c);
         self.bdb = Some(b);
+        if let Some(j) = second {
+            // the recovery rollback itself dies in front of its write number j; reopen once more
+            v::fp_reset(j, false);
+            let died = catch_unwind(AssertUnwindSafe(|| {
+                let c = self.cdb.as_mut().unwrap().reorg(r).map_err(|e| e.to_string());
+                let b1 = self.bdb.as_mut().unwrap().reorg(r).map_err(|e| e.to_string());
+                let b2 = self.bdb.as_mut().unwrap().commit().map_err(|e| e.to_string());
+                c.and(b1).and(b2)
+            }));
+            v::fp_reset(u64::MAX, false);
+            if matches!(died, Ok(Ok(()))) {
+                return Ok(false);
+            }
+            self.cdb = None;
+            self.bdb = None;
+            let (c, b) = DSys::open(&self.dir);
+            self.cdb = Some(c);
+            self.bdb = Some(b);
+        }
         let rec = catch_unwind(AssertUnwindSafe(|| {
             let c = self.cdb.as_mut().unwrap().reorg(r).map_err(|e| e.to_string());
             let b1 = self.bdb.as_mut().unwrap().reorg(r).map_err(|e| e.to_string());
@@ -559,7 +580,7 @@ impl DSys {
     }
 }
 
-pub fn part_crash(depth: usize, shard: u64, nshards: u64, deadline: Instant) -> PartCrash {
+pub fn part_crash(depth: usize, second_depth: usize, shard: u64, nshards: u64, deadline: Instant) -> PartCrash {
     use brc20_prog::verif as v;
     let mut out = PartCrash { complete: true, ..Default::default() };
     // W + 1 blocks at once: a key's next write then finds its previous version older than the window
@@ -625,13 +646,31 @@ pub fn part_crash(depth: usize, shard: u64, nshards: u64, deadline: Instant) -> 
                         out.crash_points += 1;
                         for r in &rs {
                             out.cases += 1;
-                            match sys.crash_case(path, victim, i, *r) {
+                            match sys.crash_case(path, victim, i, *r, None) {
                                 Ok(true) => {}
                                 Ok(false) => out.errors.push(format!("failpoint {} of {} did not fire: {:?} + {:?}", i, n, path, victim)),
                                 Err(e) => {
                                     out.violation = Some((format!("store level: crash before write #{} of {} of {:?}, reopened, rolled back to block {}: {}", i, n, victim, r, e), json!({"component": "BlockCachedDatabase / BlockDatabase", "ops": format!("{:?}", path), "victim": format!("{:?}", victim), "crash_before_write": i, "rollback_to": r})));
                                     out.states = seen.len() as u64;
                                     return out;
+                                }
+                            }
+                            // second layer: the recovery rollback dies too (every write of it, until the
+                            // failpoint no longer fires), then is repeated
+                            if d <= second_depth {
+                                for j in 0..200u64 {
+                                    match sys.crash_case(path, victim, i, *r, Some(j)) {
+                                        Ok(true) => {
+                                            out.second_crash_points += 1;
+                                            out.cases += 1;
+                                        }
+                                        Ok(false) => break,
+                                        Err(e) => {
+                                            out.violation = Some((format!("store level: crash before write #{} of {} of {:?}, reopened, recovery rollback to block {} crashed before its write #{}, reopened, rolled back to {} again: {}", i, n, victim, r, j, r, e), json!({"component": "BlockCachedDatabase / BlockDatabase", "ops": format!("{:?}", path), "victim": format!("{:?}", victim), "crash_before_write": i, "rollback_to": r, "second_crash_before_write": j})));
+                                            out.states = seen.len() as u64;
+                                            return out;
+                                        }
+                                    }
                                 }
                             }
                         }
